@@ -221,6 +221,13 @@ func streamLex(o *Out, r *rand.Rand, n int, thorough bool) {
 			}
 		}
 	}
+	// long chains of increments / compound assignments / unary operators (the grammar shares the operand between the target and the generated
+	// operator: whatever walks the tree after parsing must not take a number of steps that doubles with every level)
+	for _, k := range []int{8, 30, 64, 200} {
+		items = append(items, item{"chain", "a" + strings.Repeat("++", k)}, item{"chain", "a" + strings.Repeat("--", k)}, item{"chain", strings.Repeat("(", k) + "a" + strings.Repeat(" += 1)", k)},
+			item{"chain", "x = " + strings.Repeat("-", k) + "a"}, item{"chain", "x = " + strings.Repeat("!", k) + "a"}, item{"chain", "a" + strings.Repeat("[0]", k) + "++"},
+			item{"chain", strings.Repeat("(", k) + "a" + strings.Repeat(" = 1)", k)}, item{"chain", "a" + strings.Repeat(".b", k) + " += 1"})
+	}
 	// block comments whose text starts or ends with the characters of the delimiters (`/*/` is an OPEN comment, not a complete one)
 	for _, c := range []string{"8 /*/ - 2 /*/ - 3", "\"a\" + /*/ \"b\" + /*/ \"c\"", "2 /*/ * 100 */ + 1", "/*/", "/*/ x", "/**/ 1", "/***/ 1", "/*/*/ 1", "/* * / */ 1", "1 /*/*/ + /**/ 2", "a = 1 /*//*/ + 2", "/*\n*/ 1", "x /* /* */ y", "1 /**/+/**/ 2 /*/ never closed"} {
 		items = append(items, item{"comment", c})
@@ -290,6 +297,11 @@ func streamLex(o *Out, r *rand.Rand, n int, thorough bool) {
 						break
 					}
 				}
+			}
+			if it.kind == "chain" {
+				// increments / compound assignments share their operand between two places of the tree: a chain of them is a tree only
+				// as a graph, and writing it out takes a number of steps that doubles per level - these items are about ParseSrc returning
+				continue
 			}
 			dumps[i] = astser.Dump(res.stmt, 0)
 			valid = append(valid, src)
